@@ -1,13 +1,50 @@
 package main
 
+// C07 — the offsets file is always a loadable snapshot, never ahead of commits.
+// Drives the real offsetDB.save / load / parse (plugin/input/file, through verif_export_c07.go), the real
+// offset.SaveYAML / LoadYAML, and the real jobProvider.commit.
+//
+//	table   = (job ...)      job = (#file inode sid ts ((#stream off) ...))
+//	loadres = (0 (row ...)) | (1) error | (2) panic       row = (#file sid ts ((#stream off) ...)), sorted
+//	which=0  save then load            case = table                     obs = (#filebytes loadres)
+//	which=1  parse                     case = #content                  obs = loadres
+//	which=2  fault injection (strace)  case = (target old new sys k kind)
+//	                                   obs  = (#oldbytes ((op res #data) ...) #finalbytes loadres)
+//	which=3  commits racing saves      case = (table (script ...) nsaves)  obs = (loadres ...)
+//
+// which=2 runs a helper process (this binary, "c07helper") that performs ONE real save under
+// `strace -f -e inject=...`: the k-th call of one kind fails with EIO/ENOSPC or the process is killed on
+// entering it; the observable is the sequence of file-system calls the save really made (from the strace
+// log), the bytes of the offsets file afterwards and what the real loader makes of them.
+
 import (
+	"bytes"
+	"encoding/hex"
+	"fmt"
+	"math"
 	"os"
+	"os/exec"
+	"path/filepath"
+	"reflect"
+	"regexp"
+	"runtime"
+	"sort"
+	"strconv"
+	"strings"
+	"sync"
+	"time"
 
+	"github.com/ozontech/file.d/logger"
+	"github.com/ozontech/file.d/offset"
+	"github.com/ozontech/file.d/pipeline"
 	filein "github.com/ozontech/file.d/plugin/input/file"
+	"go.uber.org/zap/zapcore"
 
+	"verif/harness/hmain"
 	"verif/harness/hx"
 )
 
+// ---- tables <-> sx ---------------------------------------------------------------------------------
 func decodeTable(v hx.Sx) []filein.VerifC07Job {
 	var out []filein.VerifC07Job
 	for _, j := range hx.Items(v) {
@@ -22,9 +59,850 @@ func decodeTable(v hx.Sx) []filein.VerifC07Job {
 	return out
 }
 
+func encodeStreams(ss []filein.VerifC07Stream) hx.Sx {
+	return hx.List(ss, func(s filein.VerifC07Stream) hx.Sx { return hx.L(hx.S(s.Name), hx.Z(s.Offset)) })
+}
+
+func encodeTable(t []filein.VerifC07Job) hx.Sx {
+	return hx.List(t, func(j filein.VerifC07Job) hx.Sx {
+		return hx.L(hx.S(j.Filename), hx.U(j.Inode), hx.U(j.SourceID), hx.Z(j.Timestamp), encodeStreams(j.Streams))
+	})
+}
+
+func loadres(rows []filein.VerifC07Job, err error, panicked string) hx.Sx {
+	if panicked != "" {
+		return hx.L(hx.I(2))
+	}
+	if err != nil {
+		return hx.L(hx.I(1))
+	}
+	return hx.L(hx.I(0), hx.List(rows, func(j filein.VerifC07Job) hx.Sx {
+		return hx.L(hx.S(j.Filename), hx.U(j.SourceID), hx.Z(j.Timestamp), encodeStreams(j.Streams))
+	}))
+}
+
+func realLoad(cur string) hx.Sx {
+	var rows []filein.VerifC07Job
+	var err error
+	p := hx.Catch(func() { rows, err = filein.VerifC07Load(cur) })
+	return loadres(rows, err, p)
+}
+
+// ---- scratch space -----------------------------------------------------------------------------------
+var scratchRoot string
+var scratchN int
+
+func scratch() string {
+	if scratchRoot == "" {
+		base := "/dev/shm"
+		if st, err := os.Stat(base); err != nil || !st.IsDir() {
+			base = os.TempDir()
+		}
+		scratchRoot, _ = os.MkdirTemp(base, "verif-c07-")
+	}
+	scratchN++
+	d := filepath.Join(scratchRoot, strconv.Itoa(scratchN))
+	_ = os.MkdirAll(d, 0o755)
+	return d
+}
+
+// ---- which=0 / which=1 ---------------------------------------------------------------------------------
+func execRoundtrip(cs hx.Sx) hx.Sx {
+	table := decodeTable(cs)
+	d := scratch()
+	defer os.RemoveAll(d)
+	cur := filepath.Join(d, "offsets.yaml")
+	p := hx.Catch(func() { filein.VerifC07Save(cur, cur+".atomic", table) })
+	if p != "" {
+		return hx.L(hx.S(""), hx.L(hx.I(2)))
+	}
+	content, _ := os.ReadFile(cur)
+	return hx.L(hx.B(content), realLoad(cur))
+}
+
+func execParse(cs hx.Sx) hx.Sx {
+	var rows []filein.VerifC07Job
+	var err error
+	p := hx.Catch(func() { rows, err = filein.VerifC07Parse(hx.Str(cs)) })
+	return loadres(rows, err, p)
+}
+
+// ---- which=2: strace ------------------------------------------------------------------------------------
+var sysNames = []string{"openat", "write", "fsync", "renameat", "close", "unlinkat"}
+
+type call struct {
+	name   string
+	args   string
+	ret    string // "" = never returned (killed)
+	inject bool
+}
+
+var retRe = regexp.MustCompile(`\)\s+= `)
+var hexStr = regexp.MustCompile(`^"((?:\\x[0-9a-f]{2})*)"`)
+
+func unhex(s string) (string, string, bool) { // leading "\x..\x.." literal -> bytes, rest
+	m := hexStr.FindStringSubmatch(s)
+	if m == nil {
+		return "", s, false
+	}
+	b, _ := hex.DecodeString(strings.ReplaceAll(m[1], `\x`, ""))
+	return string(b), s[len(m[0]):], true
+}
+
+// mainCalls returns the calls of the thread that issued the begin marker, in order, with the index of
+// the marker call; lines split by strace into "<unfinished ...>" / "<... resumed>" are merged.
+func mainCalls(log string) (calls []call, begin int, end int) {
+	begin, end = -1, -1
+	lines := strings.Split(log, "\n")
+	beginHex := `"` + hexify(markBegin) + `"`
+	endHex := `"` + hexify(markEnd) + `"`
+	tid := ""
+	for _, l := range lines {
+		if strings.Contains(l, beginHex) {
+			tid = strings.SplitN(l, " ", 2)[0]
+			break
+		}
+	}
+	if tid == "" {
+		return nil, -1, -1
+	}
+	var open *call
+	for _, l := range lines {
+		sp := strings.SplitN(l, " ", 2)
+		if len(sp) < 2 || sp[0] != tid {
+			continue
+		}
+		rest := strings.TrimLeft(sp[1], " ")
+		switch {
+		case strings.HasPrefix(rest, "+++") || strings.HasPrefix(rest, "---"):
+			continue
+		case strings.HasPrefix(rest, "<... "):
+			if open != nil {
+				i := strings.Index(rest, "resumed>")
+				tail := rest[i+len("resumed>"):]
+				finish(open, open.args+tail)
+				calls = append(calls, *open)
+				open = nil
+			}
+		default:
+			p := strings.Index(rest, "(")
+			if p < 0 {
+				continue
+			}
+			c := call{name: rest[:p]}
+			body := rest[p+1:]
+			if strings.HasSuffix(body, "<unfinished ...>") {
+				c.args = strings.TrimSuffix(body, "<unfinished ...>")
+				cc := c
+				open = &cc
+				continue
+			}
+			finish(&c, body)
+			calls = append(calls, c)
+		}
+	}
+	if open != nil { // killed inside the call
+		calls = append(calls, *open)
+	}
+	for i, c := range calls {
+		if c.name == "newfstatat" && strings.Contains(c.args, beginHex) && begin < 0 {
+			begin = i
+		}
+		if c.name == "newfstatat" && strings.Contains(c.args, endHex) {
+			end = i
+		}
+	}
+	return calls, begin, end
+}
+
+func finish(c *call, body string) {
+	loc := retRe.FindAllStringIndex(body, -1)
+	if len(loc) == 0 {
+		c.args = body
+		return
+	}
+	last := loc[len(loc)-1]
+	c.args = body[:last[0]]
+	c.ret = strings.TrimSpace(body[last[1]:])
+	c.inject = strings.Contains(c.ret, "(INJECTED)")
+	if strings.HasPrefix(c.ret, "?") {
+		c.ret = ""
+	}
+}
+
+func hexify(s string) string {
+	var b strings.Builder
+	for i := 0; i < len(s); i++ {
+		fmt.Fprintf(&b, `\x%02x`, s[i])
+	}
+	return b.String()
+}
+
+type pev struct {
+	op   int
+	res  int
+	data []byte
+	raw  int // index in the thread's call list
+}
+
+// protoEvents classifies the calls between the markers: the temp file is every path "<cur>.something".
+func protoEvents(calls []call, begin, end int, cur string) []pev {
+	var out []pev
+	tmpfd := ""
+	tmppath := ""
+	hi := len(calls)
+	if end >= 0 {
+		hi = end
+	}
+	for i := begin + 1; i < hi; i++ {
+		c := calls[i]
+		res := 0
+		switch {
+		case c.ret == "":
+			res = 2
+		case strings.HasPrefix(c.ret, "-1"):
+			res = 1
+		}
+		arg := strings.Split(c.args, ", ")
+		switch c.name {
+		case "openat":
+			if len(arg) < 2 {
+				continue
+			}
+			path, _, ok := unhex(arg[1])
+			if !ok || !strings.HasPrefix(path, cur) {
+				continue
+			}
+			if path == cur {
+				out = append(out, pev{op: 9, res: res, raw: i})
+				continue
+			}
+			tmppath = path
+			if res == 0 {
+				tmpfd = strings.Fields(c.ret)[0]
+			}
+			out = append(out, pev{op: 0, res: res, raw: i})
+		case "write":
+			if arg[0] != tmpfd || tmpfd == "" {
+				continue
+			}
+			data, _, _ := unhex(arg[1])
+			out = append(out, pev{op: 1, res: res, data: []byte(data), raw: i})
+		case "fsync", "fdatasync":
+			if arg[0] != tmpfd || tmpfd == "" {
+				continue
+			}
+			out = append(out, pev{op: 2, res: res, raw: i})
+		case "rename", "renameat", "renameat2":
+			var from, to string
+			for _, a := range arg {
+				if s, _, ok := unhex(a); ok {
+					if from == "" {
+						from = s
+					} else {
+						to = s
+					}
+				}
+			}
+			if !strings.HasPrefix(from, cur) && !strings.HasPrefix(to, cur) {
+				continue
+			}
+			if from == tmppath && to == cur && tmppath != "" {
+				out = append(out, pev{op: 3, res: res, raw: i})
+			} else {
+				out = append(out, pev{op: 9, res: res, raw: i})
+			}
+		case "close":
+			if arg[0] != tmpfd || tmpfd == "" {
+				continue
+			}
+			out = append(out, pev{op: 4, res: res, raw: i})
+			if res != 2 {
+				tmpfd = ""
+			}
+		case "unlink", "unlinkat":
+			path := ""
+			for _, a := range arg {
+				if s, _, ok := unhex(a); ok {
+					path = s
+				}
+			}
+			if !strings.HasPrefix(path, cur) {
+				continue
+			}
+			if path == tmppath {
+				out = append(out, pev{op: 5, res: res, raw: i})
+			} else {
+				out = append(out, pev{op: 9, res: res, raw: i})
+			}
+		}
+	}
+	return out
+}
+
+func runHelper(target string, dir string, table hx.Sx, inject string) (string, error) {
+	exe, err := os.Executable()
+	if err != nil {
+		return "", err
+	}
+	logf := filepath.Join(dir, "strace.log")
+	args := []string{"-f", "-o", logf, "-xx", "-s", "4194304",
+		"-e", "trace=openat,write,fsync,fdatasync,rename,renameat,renameat2,close,unlink,unlinkat,newfstatat"}
+	if inject != "" {
+		args = append(args, "-e", "inject="+inject)
+	}
+	args = append(args, exe, "c07helper", target, dir, hx.String(table))
+	cmd := exec.Command("strace", args...)
+	cmd.Env = append(os.Environ(), "LOG_LEVEL=fatal")
+	done := make(chan error, 1)
+	if err := cmd.Start(); err != nil {
+		return "", err
+	}
+	go func() { done <- cmd.Wait() }()
+	select {
+	case <-done:
+	case <-time.After(30 * time.Second):
+		_ = cmd.Process.Kill()
+		<-done
+		return "", fmt.Errorf("helper timed out")
+	}
+	b, err := os.ReadFile(logf)
+	return string(b), err
+}
+
+func genericValue(table []filein.VerifC07Job) map[string]int64 {
+	m := map[string]int64{}
+	for _, j := range table {
+		for _, s := range j.Streams {
+			m[fmt.Sprintf("%d/%x", j.SourceID, s.Name)] = s.Offset
+		}
+	}
+	return m
+}
+
+func badObs(why string) hx.Sx { return hx.L(hx.S("harness: " + why)) }
+
+func execFault(cs hx.Sx) hx.Sx {
+	it := hx.Items(cs)
+	target := "filed"
+	if hx.Int(it[0]) == 1 {
+		target = "generic"
+	}
+	oldT, newT := decodeTable(it[1]), decodeTable(it[2])
+	sys, k, kind := int(hx.Int(it[3])), int(hx.Int(it[4])), int(hx.Int(it[5]))
+	if sys < 0 || sys >= len(sysNames) {
+		return badObs("sys")
+	}
+	for attempt := 0; attempt < 3; attempt++ {
+		d := scratch()
+		cur := filepath.Join(d, "offsets.yaml")
+		// the good old file, written by the real code without interference
+		if target == "filed" {
+			filein.VerifC07Save(cur, cur+".atomic", oldT)
+		} else if err := offset.SaveYAML(cur, genericValue(oldT)); err != nil {
+			os.RemoveAll(d)
+			return badObs("old save: " + err.Error())
+		}
+		oldBytes, _ := os.ReadFile(cur)
+		inject := ""
+		if kind != 0 {
+			// calibration: position of the protocol's k-th call of this kind among the thread's calls of that name
+			cd := scratch()
+			ccur := filepath.Join(cd, "offsets.yaml")
+			_ = os.WriteFile(ccur, oldBytes, 0o600)
+			clog, err := runHelper(target, cd, it[2], "")
+			os.RemoveAll(cd)
+			if err != nil {
+				os.RemoveAll(d)
+				return badObs("calibration: " + err.Error())
+			}
+			calls, b, e := mainCalls(clog)
+			evs := protoEvents(calls, b, e, ccur)
+			rawIdx, seen := -1, 0
+			for _, ev := range evs {
+				if ev.op == sys {
+					seen++
+					if seen == k {
+						rawIdx = ev.raw
+					}
+				}
+			}
+			if rawIdx < 0 {
+				os.RemoveAll(d)
+				return hx.L(hx.B(oldBytes), hx.L(), hx.B(oldBytes), hx.L(hx.I(9))) // the real code makes no such call
+			}
+			when := 0
+			for i := 0; i <= rawIdx; i++ {
+				if calls[i].name == calls[rawIdx].name {
+					when++
+				}
+			}
+			what := map[int]string{1: "error=EIO", 2: "error=ENOSPC", 3: "signal=SIGKILL"}[kind]
+			inject = fmt.Sprintf("%s:%s:when=%d", calls[rawIdx].name, what, when)
+		}
+		log, err := runHelper(target, d, it[2], inject)
+		if err != nil {
+			os.RemoveAll(d)
+			return badObs("helper: " + err.Error())
+		}
+		calls, b, e := mainCalls(log)
+		if b < 0 {
+			os.RemoveAll(d)
+			continue
+		}
+		evs := protoEvents(calls, b, e, cur)
+		// did the fault land on the intended call?
+		if kind != 0 {
+			hit := false
+			seen := 0
+			for _, ev := range evs {
+				if ev.op == sys {
+					seen++
+					if seen == k {
+						hit = (kind == 3 && ev.res == 2) || (kind != 3 && ev.res == 1 && calls[ev.raw].inject)
+					}
+				}
+			}
+			if !hit {
+				os.RemoveAll(d)
+				continue // thread scheduling differed from the calibration run: try again
+			}
+		}
+		finalBytes, _ := os.ReadFile(cur)
+		var lr hx.Sx
+		if target == "filed" {
+			lr = realLoad(cur)
+		} else {
+			got := map[string]int64{}
+			if err := offset.LoadYAML(cur, &got); err != nil {
+				lr = hx.L(hx.I(1))
+			} else {
+				lr = hx.L(hx.I(0), hx.Bool(reflect.DeepEqual(got, genericValue(oldT))), hx.Bool(reflect.DeepEqual(got, genericValue(newT))))
+			}
+		}
+		os.RemoveAll(d)
+		return hx.L(hx.B(oldBytes), hx.List(evs, func(e pev) hx.Sx { return hx.L(hx.I(e.op), hx.I(e.res), hx.B(e.data)) }), hx.B(finalBytes), lr)
+	}
+	return badObs("the injected fault never landed on the intended call")
+}
+
+// ---- which=3: real commits racing real saves -----------------------------------------------------------
+func execConcurrent(cs hx.Sx) hx.Sx {
+	it := hx.Items(cs)
+	table := decodeTable(it[0])
+	scripts := hx.Items(it[1])
+	nsaves := int(hx.Int(it[2]))
+	d := scratch()
+	defer os.RemoveAll(d)
+	cur := filepath.Join(d, "offsets.yaml")
+	p := filein.VerifC07NewProvider(cur, cur+".atomic", table)
+	var wg sync.WaitGroup
+	var snaps []hx.Sx
+	panicked := hx.Catch(func() {
+		for i, j := range table {
+			if i >= len(scripts) {
+				break
+			}
+			wg.Add(1)
+			go func(sid uint64, script []hx.Sx) {
+				defer wg.Done()
+				for n, c := range script {
+					kv := hx.Items(c)
+					p.Commit(pipeline.VerifC07Event(pipeline.SourceID(sid), uint64(n+1), hx.Int(kv[1]), hx.Str(kv[0])))
+					if n%3 == 0 {
+						runtime.Gosched()
+					}
+					if n%8 == 7 {
+						time.Sleep(20 * time.Microsecond)
+					}
+				}
+			}(j.SourceID, hx.Items(scripts[i]))
+		}
+		for s := 0; s+1 < nsaves; s++ {
+			p.Save()
+			snaps = append(snaps, realLoad(cur))
+		}
+		wg.Wait()
+		p.Save()
+		snaps = append(snaps, realLoad(cur))
+	})
+	if panicked != "" {
+		wg.Wait()
+		return hx.L(hx.L(hx.I(2)))
+	}
+	return hx.L(snaps...)
+}
+
+func exec07(which int, cs hx.Sx) hx.Sx {
+	switch which {
+	case 0:
+		return execRoundtrip(cs)
+	case 1:
+		return execParse(cs)
+	case 2:
+		return execFault(cs)
+	case 3:
+		return execConcurrent(cs)
+	}
+	return hx.L()
+}
+
+// ---- generators ---------------------------------------------------------------------------------------
+var nastyStreams = []string{"", ":", "a: 5", "- file: x", "  streams:", "stdout", "stderr", "not_set", "ж", "日本語", " lead",
+	"trail ", "a:b:", "    x: 1", "\t", "x\r", "\xff\xfe", "-", " ", ": ", "  last_read_timestamp: 3", "a:", ":a", "0", "stream: 7\r"}
+var nastyFiles = []string{"/var/log/a.log", "- file: x", "a: 5", " ", "", "/tmp/ф.log", "  inode: 3", "/x/y: z", "  streams:", "\xff", "-", "/var/log/pods/ns_pod_uid/c/0.log"}
+var nastyOffsets = []int64{0, 1, 7, 1 << 31, 1<<63 - 1, 1<<63 - 2, 16 * 1024 * 1024, 9, 10, 99, 100}
+
+func randBytesNoNL(r *hx.Rng, n int) string {
+	b := make([]byte, n)
+	for i := range b {
+		for {
+			b[i] = byte(r.Intn(256))
+			if b[i] != '\n' {
+				break
+			}
+		}
+	}
+	return string(b)
+}
+
+func genName(r *hx.Rng, pool []string) string {
+	switch r.Intn(10) {
+	case 0:
+		return randBytesNoNL(r, r.Range(0, 6))
+	case 1:
+		return hx.Pick(r, pool) + hx.Pick(r, pool)
+	default:
+		return hx.Pick(r, pool)
+	}
+}
+
+func genOffset(r *hx.Rng) int64 {
+	if r.Chance(1, 2) {
+		return hx.Pick(r, nastyOffsets)
+	}
+	return int64(r.U64() >> uint(1+r.Intn(62)))
+}
+
+func genU64(r *hx.Rng) uint64 {
+	switch r.Intn(5) {
+	case 0:
+		return 0
+	case 1:
+		return math.MaxUint64
+	case 2:
+		return uint64(r.Intn(100))
+	default:
+		return r.U64() >> uint(r.Intn(64))
+	}
+}
+
+func genTable(r *hx.Rng, maxJobs int, allowEmptyJobs bool) []filein.VerifC07Job {
+	n := r.Range(0, maxJobs)
+	used := map[uint64]bool{}
+	var t []filein.VerifC07Job
+	for i := 0; i < n; i++ {
+		sid := genU64(r)
+		for used[sid] {
+			sid = r.U64()
+		}
+		used[sid] = true
+		j := filein.VerifC07Job{Filename: genName(r, nastyFiles), Inode: genU64(r), SourceID: sid}
+		switch r.Intn(6) {
+		case 0:
+			j.Timestamp = 0
+		case 1:
+			j.Timestamp = math.MinInt64
+		case 2:
+			j.Timestamp = math.MaxInt64
+		case 3:
+			j.Timestamp = -1
+		default:
+			j.Timestamp = int64(r.U64() >> uint(r.Intn(64)))
+		}
+		lo := 1
+		if allowEmptyJobs {
+			lo = 0
+		}
+		ns := r.Range(lo, 4)
+		names := map[string]bool{}
+		for s := 0; s < ns; s++ {
+			name := genName(r, nastyStreams)
+			if names[name] {
+				continue
+			}
+			names[name] = true
+			j.Streams = append(j.Streams, filein.VerifC07Stream{Name: name, Offset: genOffset(r)})
+		}
+		t = append(t, j)
+	}
+	return t
+}
+
+func hasStreams(t []filein.VerifC07Job) bool {
+	for _, j := range t {
+		if len(j.Streams) > 0 {
+			return true
+		}
+	}
+	return false
+}
+
+func smallNames() []string {
+	alpha := []string{"a", ":", " ", "-"}
+	out := []string{""}
+	out = append(out, alpha...)
+	for _, a := range alpha {
+		for _, b := range alpha {
+			out = append(out, a+b)
+		}
+	}
+	return out
+}
+
+func gen07(c *hmain.Ctx) {
+	r := c.R
+	// ---- exhaustive small scope: every one-job table with 1 or 2 streams named over {a, ':', ' ', '-'} up to
+	//      length 2 (incl. the empty name), offsets {0, 7, 2^63-1}; every two-job table of single streams
+	names := smallNames()
+	offs := []int64{0, 7, 1<<63 - 1}
+	for _, n1 := range names {
+		for _, o1 := range offs {
+			t := []filein.VerifC07Job{{Filename: "f", Inode: 1, SourceID: 1, Timestamp: 5, Streams: []filein.VerifC07Stream{{Name: n1, Offset: o1}}}}
+			c.Do("exhaustive", 0, encodeTable(t), true)
+			for _, n2 := range names {
+				if n2 == n1 {
+					continue
+				}
+				for _, o2 := range offs {
+					t2 := []filein.VerifC07Job{{Filename: "f", Inode: 1, SourceID: 1, Timestamp: 5,
+						Streams: []filein.VerifC07Stream{{Name: n1, Offset: o1}, {Name: n2, Offset: o2}}}}
+					c.Do("exhaustive", 0, encodeTable(t2), true)
+				}
+			}
+		}
+	}
+	for _, n1 := range names {
+		for _, n2 := range names {
+			for _, f := range []string{"", "- file: x", "  streams:"} {
+				t := []filein.VerifC07Job{
+					{Filename: f, Inode: 0, SourceID: 2, Timestamp: -1, Streams: []filein.VerifC07Stream{{Name: n1, Offset: 3}}},
+					{Filename: "g", Inode: math.MaxUint64, SourceID: math.MaxUint64, Timestamp: 0, Streams: []filein.VerifC07Stream{{Name: n2, Offset: 1<<63 - 1}}}}
+				c.Do("exhaustive", 0, encodeTable(t), true)
+			}
+		}
+	}
+
+	// ---- structured random tables
+	for i := 0; i < 10000*c.Scale; i++ {
+		t := genTable(r, 5, true)
+		c.W.Count(fmt.Sprintf("roundtrip jobs=%d", len(t)))
+		for _, j := range t {
+			for _, s := range j.Streams {
+				switch {
+				case s.Name == "":
+					c.W.Count("stream name empty")
+				case strings.Contains(s.Name, ":"):
+					c.W.Count("stream name with ':'")
+				}
+				if s.Offset == 1<<63-1 {
+					c.W.Count("offset 2^63-1")
+				}
+			}
+		}
+		c.Do("roundtrip", 0, encodeTable(t), hasStreams(t))
+	}
+	// ---- the empty stream name (the pipeline's stream field may be "")
+	for i := 0; i < 200*c.Scale; i++ {
+		t := genTable(r, 3, false)
+		if len(t) == 0 {
+			continue
+		}
+		j := &t[r.Intn(len(t))]
+		has := false
+		for _, s := range j.Streams {
+			has = has || s.Name == ""
+		}
+		if !has {
+			j.Streams = append(j.Streams, filein.VerifC07Stream{Name: "", Offset: genOffset(r)})
+		}
+		c.Do("empty-stream", 0, encodeTable(t), true)
+	}
+	// ---- names with a newline (stream name = the event's stream field; file names may contain one on Linux)
+	for i := 0; i < 60*c.Scale; i++ {
+		t := genTable(r, 2, false)
+		if len(t) == 0 {
+			continue
+		}
+		j := &t[r.Intn(len(t))]
+		nl := hx.Pick(r, []string{"\n", "a\nb", "x\n", "\n    y: 3", "s\n- file: z"})
+		if r.Bool() || len(j.Streams) == 0 {
+			j.Filename += nl
+			c.W.Count("newline in file name")
+		} else {
+			k := r.Intn(len(j.Streams))
+			j.Streams[k].Name += nl
+			c.W.Count("newline in stream name")
+		}
+		c.Do("newline-name", 0, encodeTable(t), true)
+	}
+
+	// ---- parser on damaged files: every single-byte edit of a few real files + token soup
+	var bases [][]byte
+	for i := 0; i < 3; i++ {
+		t := genTable(r, 2, false)
+		if i == 0 {
+			t = []filein.VerifC07Job{{Filename: "/var/log/a.log", Inode: 5, SourceID: 7, Timestamp: 1234,
+				Streams: []filein.VerifC07Stream{{Name: "stdout", Offset: 100}, {Name: "a:b", Offset: 1<<63 - 1}}},
+				{Filename: "b", Inode: 6, SourceID: 8, Timestamp: -3, Streams: []filein.VerifC07Stream{{Name: "", Offset: 0}}}}
+		}
+		obs := execRoundtrip(encodeTable(t))
+		bases = append(bases, hx.Bytes(hx.Items(obs)[0]))
+	}
+	alpha := []byte{' ', ':', '-', '\n', '0', '9', 'x', '+'}
+	nmut := 0
+	for bi, b := range bases {
+		if len(b) > 400 {
+			b = b[:400]
+		}
+		for pos := 0; pos <= len(b); pos++ {
+			var muts [][]byte
+			if pos < len(b) {
+				muts = append(muts, append(append([]byte{}, b[:pos]...), b[pos+1:]...)) // delete
+				muts = append(muts, append([]byte{}, b[:pos]...))                       // truncate
+			}
+			for _, a := range alpha {
+				muts = append(muts, append(append(append([]byte{}, b[:pos]...), a), b[pos:]...)) // insert
+				if pos < len(b) && b[pos] != a {
+					m := append([]byte{}, b...)
+					m[pos] = a
+					muts = append(muts, m) // replace
+				}
+			}
+			for _, m := range muts {
+				if bi > 0 && c.Scale == 1 && nmut%3 != 0 { // quick: thin out the random bases
+					nmut++
+					continue
+				}
+				nmut++
+				c.Do("parse-edits", 1, hx.B(m), true)
+			}
+		}
+	}
+	tokens := []string{"- file: ", "  inode: ", "  source_id: ", "  last_read_timestamp: ", "  streams:", "    ", ": ", ":", "\n", "\n", "\n",
+		"0", "7", "18446744073709551615", "18446744073709551616", "9223372036854775807", "9223372036854775808", "-9223372036854775808",
+		"-", "+5", "a", "  ", "x: 1", "_", "1_0", " 5", "5 ", "-0"}
+	for i := 0; i < 4000*c.Scale; i++ {
+		var b strings.Builder
+		if r.Chance(2, 3) { // start from a plausible header
+			b.WriteString("- file: f\n  inode: 1\n  source_id: " + strconv.Itoa(r.Intn(3)) + "\n")
+			if r.Bool() {
+				b.WriteString("  last_read_timestamp: " + hx.Pick(r, tokens) + "\n")
+			}
+			if r.Chance(4, 5) {
+				b.WriteString("  streams:\n")
+			}
+		}
+		for n := r.Range(0, 12); n > 0; n-- {
+			b.WriteString(hx.Pick(r, tokens))
+		}
+		c.Do("parse-soup", 1, hx.S(b.String()), true)
+	}
+
+	// ---- fault injection on the real save: every call of the protocol x {EIO, ENOSPC, SIGKILL}, and no fault
+	oldT := []filein.VerifC07Job{{Filename: "/var/log/a.log", Inode: 5, SourceID: 7, Timestamp: 1234,
+		Streams: []filein.VerifC07Stream{{Name: "stdout", Offset: 100}, {Name: "", Offset: 7}}}}
+	newT := []filein.VerifC07Job{{Filename: "/var/log/a.log", Inode: 5, SourceID: 7, Timestamp: 5678,
+		Streams: []filein.VerifC07Stream{{Name: "stdout", Offset: 250}, {Name: "", Offset: 9}, {Name: "a: 5", Offset: 1<<63 - 1}}}}
+	for target := 0; target <= 1; target++ {
+		stream := []string{"fault-filed", "fault-generic"}[target]
+		c.Do(stream, 2, hx.L(hx.I(target), encodeTable(oldT), encodeTable(newT), hx.I(0), hx.I(0), hx.I(0)), true)
+		// the calls the real code makes, from one clean run (so a protocol change changes the plan)
+		clean := execFault(hx.L(hx.I(target), encodeTable(oldT), encodeTable(newT), hx.I(0), hx.I(0), hx.I(0)))
+		count := map[int]int{}
+		if items := hx.Items(clean); len(items) == 4 {
+			for _, e := range hx.Items(items[1]) {
+				count[int(hx.Int(hx.Items(e)[0]))]++
+			}
+		}
+		for sys := 0; sys < len(sysNames); sys++ {
+			for k := 1; k <= count[sys]; k++ {
+				for kind := 1; kind <= 3; kind++ {
+					c.W.Count(fmt.Sprintf("fault %s %s", sysNames[sys], []string{"", "EIO", "ENOSPC", "SIGKILL"}[kind]))
+					c.Do(stream, 2, hx.L(hx.I(target), encodeTable(oldT), encodeTable(newT), hx.I(sys), hx.I(k), hx.I(kind)), true)
+				}
+			}
+		}
+		// other tables: empty old file, empty new table, random ones
+		for i := 0; i < 2*c.Scale; i++ {
+			o, n := genTable(r, 2, false), genTable(r, 3, false)
+			if i == 0 {
+				o = nil
+			}
+			sys := r.Intn(4)
+			c.Do(stream, 2, hx.L(hx.I(target), encodeTable(o), encodeTable(n), hx.I(sys), hx.I(1), hx.I(r.Range(1, 3))), true)
+		}
+	}
+
+	// ---- real commits racing real saves
+	for i := 0; i < 40*c.Scale; i++ {
+		t := genTable(r, 3, true)
+		if len(t) == 0 {
+			continue
+		}
+		var scripts []hx.Sx
+		for ji := range t {
+			// offsets already in the table must stay below the committed ones
+			cur := map[string]int64{}
+			for k := range t[ji].Streams {
+				t[ji].Streams[k].Offset = int64(r.Intn(50))
+				cur[t[ji].Streams[k].Name] = t[ji].Streams[k].Offset
+			}
+			pool := []string{"stdout", "stderr", "", "a: 5"}
+			for _, s := range t[ji].Streams {
+				pool = append(pool, s.Name)
+			}
+			var sc []hx.Sx
+			for n := r.Range(5, 60); n > 0; n-- {
+				name := hx.Pick(r, pool)
+				if strings.Contains(name, "\n") {
+					continue
+				}
+				cur[name] += int64(r.Range(1, 1000))
+				sc = append(sc, hx.L(hx.S(name), hx.Z(cur[name])))
+			}
+			scripts = append(scripts, hx.L(sc...))
+		}
+		obs := c.Do("concurrent", 3, hx.L(encodeTable(t), hx.L(scripts...), hx.I(r.Range(2, 8))), true)
+		distinct := map[string]bool{}
+		for _, s := range hx.Items(obs) {
+			distinct[hx.String(s)] = true
+		}
+		c.W.Count(fmt.Sprintf("concurrent: distinct snapshots in one run = %d", len(distinct)))
+	}
+	if scratchRoot != "" {
+		os.RemoveAll(scratchRoot)
+	}
+	_ = sort.Strings
+	_ = bytes.Equal
+}
+
 func main() {
 	if len(os.Args) > 1 && os.Args[1] == "c07helper" {
 		helperMain()
 		return
+	}
+	logger.Level.SetLevel(zapcore.FatalLevel)
+	hmain.Run(&hmain.Prop{
+		ID:   "C07",
+		Rule: "non-trivial = a table with at least one stream / any parser input / any fault or race scenario",
+		Gen:  gen07,
+		Exec: func(which int, cs hx.Sx) hx.Sx {
+			obs := exec07(which, cs)
+			return obs
+		},
+	})
+	if scratchRoot != "" {
+		os.RemoveAll(scratchRoot)
 	}
 }
